@@ -34,7 +34,7 @@ RULE = (
     "(document text, position, path); non-trivial = the planted line is beyond line 1 and at least one "
     "call-site frame lies in a template."
 )
-RULE += ' added since: positions for-iterable, loop body, elif/while tests, <%call expr>, tag attribute, include file expression, functions of a first and second <%! %> block (also through a namespace), relay back through caller.body(); warnings from literal comparisons, invalid escapes in for iterables, def bodies and module blocks; relative module_directory / module_filename; alternating frames of two templates. module directory reached through a symbolic link. the format_exceptions page through render() with an output encoding. filler holding U+2028, U+2029, U+0085, FF, VT, FS-US (line breaks for str.splitlines only). edit-and-recompile into the same module file within one process (traceback, text page, compile warning).'
+RULE += ' added since: positions for-iterable, loop body, elif/while tests, <%call expr>, tag attribute, include file expression, functions of a first and second <%! %> block (also through a namespace), relay back through caller.body(); warnings from literal comparisons, invalid escapes in for iterables, def bodies and module blocks; relative module_directory / module_filename; alternating frames of two templates. module directory reached through a symbolic link. the format_exceptions page through render() with an output encoding. filler holding U+2028, U+2029, U+0085, FF, VT, FS-US (line breaks for str.splitlines only). edit-and-recompile into the same module file within one process (traceback, text page, compile warning). the failing line as last line of a source without final newline on the HTML / format_exceptions page.'
 ASSUMPTIONS = [
     "generated glue frames that correspond to no construct (def stubs, cache wrappers) are only required to carry "
     "the right template identity and a line inside the source",
@@ -43,6 +43,7 @@ ASSUMPTIONS = [
 MIN_NONTRIVIAL = 200
 REQUIRED_COUNTERS = ["tracebacks_checked", "callsite_frames_checked", "python_frames_checked", "text_error_pages", "html_error_pages", "format_exceptions_pages", "warnings_cases", "multi_template_tracebacks"]
 REQUIRED_COUNTERS += ["edit_and_recompile_rounds"]
+REQUIRED_COUNTERS += ["last_line_pages"]
 
 _st = {}
 
@@ -633,8 +634,45 @@ def run_edit_and_recompile(res):
             shutil.rmtree(d, ignore_errors=True)
 
 
+def run_last_line(res):
+    """the failing line is the LAST line of a source that does not end in a newline: the HTML error page (explicit and
+    through format_exceptions) shows it in its source excerpt exactly as it does for the same text with a final newline"""
+    ex = _st["exceptions"]
+    L = _st["TemplateLookup"]
+    for body in ("one\ntwo\nthree\n${boom('T')} z", "${boom('T')}", "a\n<%\n    q_ = 1\n    boom('T')\n%>", "x\n% if True:\n${boom('T')}\n% endif"):
+        pages = {}
+        for tail in ("", "\n"):
+            for path in ("put_string", "file-lookup", "moddir-first"):
+                _st["n"] += 1
+                d = os.path.join(_st["tmp"], "l%d" % _st["n"])
+                os.makedirs(d)
+                try:
+                    spec = {"templates": {"/main.html": body + tail}, "top": "/main.html"}
+                    outs = []
+                    for fe in (False, True):
+                        lk, ids, put = make_lookup(spec, path, d, **({"format_exceptions": True} if fe else {}))
+                        put()
+                        try:
+                            page = lk.get_template("/main.html").render_unicode()
+                        except Exception:
+                            page = ex.html_error_template().render_unicode()
+                        plain = " ".join(strip_html(page).split())
+                        outs.append(plain.count("boom('T')"))
+                    pages[(tail, path)] = outs
+                    res.evaluations += 1
+                    res.count("last_line_pages")
+                finally:
+                    shutil.rmtree(d, ignore_errors=True)
+        for path in ("put_string", "file-lookup", "moddir-first"):
+            if pages[("", path)] != pages[("\n", path)] or min(pages[("", path)]) < 2:
+                res.violate("html-error-page-last-line", "template %r raising on its last line, path %s: the failing line appears %r times on the HTML page / the format_exceptions page; "
+                            "with a final newline added %r times (frame list + source excerpt)" % (body, path, pages[("", path)], pages[("\n", path)]))
+        res.nontrivial("last-line", body)
+
+
 def gen_cases(tier, seed):
     yield {"kind": "edit-recompile"}
+    yield {"kind": "last-line"}
     n = 40 if tier == "quick" else 400
     for i in range(n):
         for pos in POSITIONS:
@@ -647,7 +685,9 @@ def gen_cases(tier, seed):
 
 def run_case(case):
     res = common.CaseResult()
-    if case["kind"] == "edit-recompile":
+    if case["kind"] == "last-line":
+        run_last_line(res)
+    elif case["kind"] == "edit-recompile":
         run_edit_and_recompile(res)
     elif case["kind"] == "tb" and "spec" not in case:
         r = common.rng_for(case["seed"], "c12", case["index"], case["pos"])
